@@ -23,11 +23,14 @@ def run(mod_name, ob_id, tier, seed, args):
     res = {'reproduced': False, 'observed': None, 'exception': None}
     # preconditions: re-evaluate the `pre:` lines of the docstring concretely
     import inspect
-    doc = fn.__doc__ or ''
-    sig = inspect.signature(fn)
-    bound = sig.bind(**kwargs)
-    env = dict(fn.__globals__)
-    env.update(bound.arguments)
+    import types
+    doc = (fn.__doc__ or '') if isinstance(fn, types.FunctionType) else ''
+    env = {}
+    if isinstance(fn, types.FunctionType):
+        sig = inspect.signature(fn)
+        bound = sig.bind(**kwargs)
+        env = dict(fn.__globals__)
+        env.update(bound.arguments)
     for line in doc.splitlines():
         line = line.strip()
         if line.startswith('pre:'):
